@@ -157,11 +157,18 @@ def translate(path, func, coq_name, consts=()):
 # block WRITES (`x = e`, `x += e`, `self.a = e`, `z[i] = e`) is a let-binding; later reads see the binding. The result
 # is the tuple of the current bindings of the declared result l-values. Calls: np/math exp, log, sqrt; a function
 # nested in the method (translated as its own definition); calls declared opaque (`spe.expn`, `self.gravity_at_height`)
-# become applications of a function parameter. Skipped, and only these: docstrings, imports, `self.debug/info/warning/
+# become applications of a function parameter; calls declared as values (`self.chisq_trans(...)`) become a scalar
+# parameter. The block may be the body of a closure defined in the method (`inner=`), preceded by the enclosing
+# assignments it uses (`prelude=`). `x[:, None]` and `x.ravel()` are read pointwise; `x[0]` is one fixed element;
+# `x**c` with a constant c that is not a small positive integer is exp(c ln x); `np.sum(E, axis=0)`, `np.sum(E)` and
+# `np.nansum(E)` become a definition `<name>_summandK` of the summand (over the block's parameters) and a parameter
+# `SUMK` of the main definition -- the lemma file puts the sum over the list back. Skipped, and only these: docstrings, imports, `self.debug/info/warning/
 # error(...)` statements, `x = np.zeros(...)` allocations, `if <x> is None:` initialisation blocks (the model starts
 # from the initialised state), declared no-op calls; `with ...:` and `try: ... except ZeroDivisionError` contribute their
 # body (the lemma carries the non-zero hypothesis); `if <loopvar> < <n>:` inside a loop body contributes its body (the
-# model's step is the interior step). Anything else raises TranslateError.
+# model's step is the interior step); assignments and `if` tests the driver names explicitly (`skip_assign=`, `skip_if=`:
+# a name that stays a parameter, a branch the model treats separately). Statements before `start=` and after the last
+# result is assigned are outside the block. Anything else raises TranslateError.
 
 LOGCALLS = ('debug', 'info', 'warning', 'error', 'critical')
 
